@@ -25,7 +25,7 @@ TEXT = {
          "1.x codec values unreachable through the public API are not generated (stated gap)"),
  "C18": ("2.x table-API histories against a row model: get() after add()/update() equals the written row except id, last-edit time and origin fix-up; every per-column getter equals the row field; every per-column setter changes that column only (all other columns of all rows re-read and compared after each step); accessors and remove() naming a nonexistent row must throw; playlist/entity listings follow a sequence model.",
          "row generator gives every same-typed pair of columns different values so that a transposed bind cannot hide"),
- "C14": ("Fault enumeration inside each mutating call: for sampled (pre-state, call) pairs on an on-disk library the call is re-executed from the same restored disk image once per fault position - every SQL statement failing with BUSY/ERROR/READONLY (exhaustive), every VFS call of the call addressed as (method, file, ordinal), every VM tick (cancellation), seeded SQLite allocation failures - and the full public observation afterwards must equal the pre-state (or, for real-path faults that SQLite reports after its commit point, exactly the fault-free post-state); errors must surface as std::exception and the call must succeed when retried.",
+ "C14": ("Fault enumeration inside each mutating call: for sampled (pre-state, call) pairs on an on-disk library the call is re-executed from the same restored disk image once per fault position - every SQL statement failing with BUSY/ERROR/READONLY (exhaustive), every VFS call of the call addressed as (method, file, ordinal), every VM tick (cancellation), seeded SQLite allocation failures, and the second party taking the write lock at every statement boundary (real SQLITE_BUSY) - and the full public observation afterwards must equal the pre-state (or, for real-path faults that SQLite reports after its commit point, exactly the fault-free post-state); errors must surface as std::exception and the call must succeed when retried.",
          "inner loop exhaustive for F1 and within caps (256) for F2/F3, outer loop sampled; F1 is a stub-level fault at the statement boundary, F2-F4 go through SQLite's real pager/journal error paths on the simulated disk"),
  "C04": ("Two parties on one simulated disk: a foreign writer with its own SQLite connection stores 2.x performance blobs encoded by an independent codec in shapes the library never produces (0..12 entries, flag bytes other than 0/1, non-zero unknown fields, default != adjusted grid, trailing bytes, NaN payloads) or mutates stored payloads; the library then performs table-API get->update of the unchanged row, per-column blob get->set and every public single-field setter; before and after each write an independent reader inflates the five stored blobs and compares them field by field: everything the operation does not own must be byte-identical (the main-cue-adjusted byte may be normalised to 1), and a rejected write must change nothing.",
          "set_loops / set_waveform replace their whole blob and own it; update(snapshot) is not a single-field change and is not judged"),
